@@ -45,7 +45,7 @@ def run_one(sim, params):
     nfc = core.import_nfc()
     import nfc.tag
     typ = params["type"]
-    op = sim.wpick("op", [(5, "write"), (2, "format"), (3, "wipe")])
+    op = sim.wpick("op", [(5, "write"), (2, "format"), (3, "wipe")] + ([(2, "format-write")] if typ in ("t1", "t2") else []))
     kw = {}
     if typ == "t1" and op != "write":
         kw["product_layout"] = True
@@ -66,7 +66,39 @@ def run_one(sim, params):
         n0 = len(w.silicon.write_units)
         sim.probe("op." + op)
         detail = op
-        if op == "write":
+        if op == "format-write":
+            # one session: the NDEF data was read above, now format and then write through the same Tag object;
+            # the write is judged against the layout that format() left on the tag (independent parse)
+            try:
+                res = tag.format()
+            except Exception as e:
+                sim.probe("format.raised_%s(C16 territory)" % type(e).__name__)
+                return
+            if not res:
+                sim.probe("format-write.format_%r" % res)
+                return
+            before = bytes(w.silicon.mem)
+            n0 = len(w.silicon.write_units)
+            from dsim.w1 import t1t, t2t
+            lay2 = t1t.parse_t1t(before, w.silicon.hr[0]) if typ == "t1" else t2t.parse_t2t(before)
+            if lay2.get("status") != "ok":
+                sim.probe("format-write.layout_%s" % lay2.get("status"))
+                return
+            allowed = set(range(lay2["offset"], lay2["end"])) - set(lay2["reserved"])
+            try:
+                nd = tag.ndef
+                if nd is None:
+                    sim.probe("format-write.no_ndef_after_format")
+                    return
+                new_len, nc = gen.pick_len(sim, "newlen", nd.capacity)
+                new = sim.bytes("new", new_len, tag=3)
+                detail = "format then write %d on %s" % (new_len, type(tag).__name__)
+                nd.octets = new
+            except Exception as e:
+                sim.probe("format-write.raised_%s" % type(e).__name__)
+                return
+            sim.probe("format-write.done")
+        elif op == "write":
             new_len, nc = gen.pick_len(sim, "newlen", ndef.capacity)
             new = sim.bytes("new", new_len, tag=3)
             detail = "write %d" % new_len
